@@ -20,6 +20,7 @@ type policy struct {
 	invalid                        int // of 10: A/B drawn so that Verify tends to fail
 	bad                            int // of 40: values that fail to stack
 	maxOpen                        int
+	twoArms                        bool // let several arms of the monitor's select be ready at once
 }
 
 func policyFor(focus, mode string) policy {
@@ -45,6 +46,9 @@ func policyFor(focus, mode string) policy {
 		p.cbRet, p.cbTake = 1, 3
 	case "shutdown":
 		p.done, p.cancelMain = 6, 2
+	case "twoarms":
+		p.twoArms = true
+		p.enable, p.cancelMain, p.done, p.reportErr = 8, 2, 3, 4
 	case "overflow":
 		// callbacks are entered but never return until teardown: the queue fills up
 		p.cbRet, p.cbTake, p.report, p.mon = 0, 2, 40, 60
@@ -151,6 +155,8 @@ func (w *world) candidates(r *coqfmt.Rng, p policy, allowNew bool) []cand {
 		if w.monPoint == "mon.loop" {
 			if arms := w.monArms(); len(arms) == 1 {
 				add(arms[0], p.mon)
+			} else if len(arms) > 1 {
+				add(label{K: "recv"}, p.mon) // Go picks the arm; the harness observes which
 			}
 		} else {
 			add(label{K: "monact"}, p.mon)
@@ -168,7 +174,7 @@ func (w *world) candidates(r *coqfmt.Rng, p policy, allowNew bool) []cand {
 			add(label{K: "ack"}, p.cbAck)
 		}
 	}
-	quietCtl := !w.monAlive() || (!w.mainDone && offerer == nil)
+	quietCtl := p.twoArms || !w.monAlive() || (!w.mainDone && offerer == nil)
 	for _, tid := range w.order {
 		t := w.threads[tid]
 		if t.pc == "done" {
@@ -185,7 +191,7 @@ func (w *world) candidates(r *coqfmt.Rng, p policy, allowNew bool) []cand {
 			add(label{K: "cancel", Tid: tid}, p.cancel)
 		}
 	}
-	if !w.mainDone && (!w.monAlive() || (len(w.ctlq) == 0 && offerer == nil)) {
+	if !w.mainDone && (p.twoArms || !w.monAlive() || (len(w.ctlq) == 0 && offerer == nil)) {
 		add(label{K: "cancelmain"}, p.cancelMain)
 	}
 	if !allowNew || w.openThreads() >= p.maxOpen {
@@ -196,7 +202,7 @@ func (w *world) candidates(r *coqfmt.Rng, p policy, allowNew bool) []cand {
 	start(&opT{K: "view"}, p.view)
 	start(&opT{K: "token", Slot: r.Intn(3)}, p.token)
 	start(&opT{K: "events"}, p.events)
-	if ws := w.watchingSources(); len(ws) > 0 && offerer == nil && (!w.monAlive() || (!w.mainDone && len(w.ctlq) == 0)) {
+	if ws := w.watchingSources(); len(ws) > 0 && offerer == nil && (p.twoArms || !w.monAlive() || (!w.mainDone && len(w.ctlq) == 0)) {
 		src := coqfmt.Pick(r, ws)
 		start(&opT{K: "offer", Msg: &msgT{K: "update", Src: src, V: w.genValue(r, p), Blocking: r.Intn(10) < p.blocking}}, p.report)
 		start(&opT{K: "offer", Msg: &msgT{K: "err", Src: src}}, p.reportErr)
@@ -280,6 +286,7 @@ func (w *world) walk(r *coqfmt.Rng, p policy, n int) {
 // call is cancelled and released, callbacks return, until the monitor and the
 // callback goroutine are gone and every API call has returned.
 func (w *world) teardown() {
+	w.inTeardown = true
 	for i := 0; i < 5000 && !w.stuck; i++ {
 		switch {
 		case w.monAlive() && w.monPoint != "mon.loop":
@@ -289,7 +296,7 @@ func (w *world) teardown() {
 		case w.monAlive() && len(w.monArms()) == 0:
 			w.do(label{K: "cancelmain"})
 		case w.monAlive():
-			panic(harnessError("teardown: several arms of the monitor's select are ready"))
+			w.do(label{K: "recv"})
 		case w.hasMon && w.cbPos == "call":
 			w.do(label{K: "cbret"})
 		case w.hasMon && w.cbPos == "ack":
